@@ -18,7 +18,7 @@ use serde_json::{json, Value};
 use std::sync::atomic::{AtomicU32, Ordering};
 
 /// properties that have a scenario
-pub const PROPS: [&str; 16] = ["C01", "C02", "C03", "C04", "C05", "C06", "C07", "C10", "C11", "C12", "C13", "C14", "C15", "C16", "C17", "C18"];
+pub const PROPS: [&str; 17] = ["C01", "C02", "C03", "C04", "C05", "C06", "C07", "C08", "C10", "C11", "C12", "C13", "C14", "C15", "C16", "C17", "C18"];
 
 pub fn has(prop: &str) -> bool {
   PROPS.contains(&prop)
@@ -45,6 +45,14 @@ fn scen_validator(_key: &str, v: &Value) -> Result<(), PasetoClaimError> {
   }
 }
 const SCEN_VALIDATOR: &ValidatorFn = &scen_validator;
+fn requires_fine(_key: &str, v: &Value) -> Result<(), PasetoClaimError> {
+  if v.as_str() == Some("fine") {
+    Ok(())
+  } else {
+    Err(PasetoClaimError::CustomValidation("scenario: not fine".into()))
+  }
+}
+const REQUIRES_FINE: &ValidatorFn = &requires_fine;
 
 fn err<T>(code: &str, detail: String) -> Result<T, String> {
   Err(format!("{code}: {detail}"))
@@ -93,7 +101,13 @@ pub fn scenario(prop: &str, t: usize, r: usize, light: bool, cp: &dyn Fn(u8)) ->
   let km = keys::material(p, &seed_for(t, r, 7));
   let lk = km.lib().map_err(|e| format!("harness: {}", e.text))?;
   let msg = message(t, r);
-  let footer = if r % 2 == 0 { Some(format!("{{\"kid\":\"f{t}-{r}\"}}")) } else { None };
+  // (a JSON footer whose member names are claim names - what it says is not a claim: "exp" far in the future, "nbf" long
+  // past, the seat the parser expects, a value validators accept)
+  let footer = match r % 4 {
+    0 => Some(format!("{{\"kid\":\"f{t}-{r}\"}}")),
+    2 => Some(format!("{{\"kid\":\"f{t}\",\"exp\":\"2999-01-01T00:00:00Z\",\"nbf\":\"1999-01-01T00:00:00Z\",\"seat\":{},\"data\":\"footer\",\"absent\":\"fine\"}}", t * 1000 + r + 1)),
+    _ => None,
+  };
   let assertion = if p.has_assertion() && (t + r) % 3 != 0 { Some(format!("a{t}-{r}")) } else { None };
   let nonce: Vec<u8> = (0..32u8).map(|i| i.wrapping_mul(7).wrapping_add((t * 31 + r) as u8)).collect();
   let what = format!("{} {} thread {} round {}", p.label(), layer.label(), t, r);
@@ -110,6 +124,19 @@ pub fn scenario(prop: &str, t: usize, r: usize, light: bool, cp: &dyn Fn(u8)) ->
         Ok(out) if out.message().as_deref() == Some(msg.as_str()) => Ok(vec![]),
         Ok(out) => err("round-trip-differs", format!("{what}: put in {:?}, got back {:?}", msg, out.message())),
         Err(e) => err("parse-failed", format!("{what}: authentic token refused under the same key, footer and assertion: {}", e.text)),
+      }
+    }
+    "C08" => {
+      // a token made by the independent transcription of the specification is read by the library, at every layer
+      let seed = seed_for(t, r, 7);
+      let text = if layer == Layer::Core { msg.clone() } else { json!({ "data": msg }).to_string() };
+      let token = crate::c09::reference_token(p, &seed, text.as_bytes(), footer.as_deref().unwrap_or("").as_bytes()).ok_or("harness: reference could not sign")?;
+      cp(2);
+      match layer_parse(p, if layer == Layer::Prelude { Layer::Generic } else { layer }, &lk, &token, footer.as_deref(), None) {
+        Ok(out) if layer == Layer::Core && out.message().as_deref() == Some(msg.as_str()) => Ok(vec![]),
+        Ok(crate::rt::LayerOut::Json(v)) if v.get("data") == Some(&json!(msg)) => Ok(vec![]),
+        Ok(out) => err("ref-token-reads-differently", format!("{what}: the specification's token for {:?} was read as {:?}", msg, out.message())),
+        Err(e) => err("ref-token-rejected", format!("{what}: a token built by the specification's algorithm was refused: {}", e.text)),
       }
     }
     "C03" => {
@@ -189,18 +216,31 @@ pub fn scenario(prop: &str, t: usize, r: usize, light: bool, cp: &dyn Fn(u8)) ->
         _ => ("2999-01-01T00:00:00Z", "2000-01-01T00:00:00Z"),
       };
       let specs = [ClaimSpec::Exp(exp.into()), ClaimSpec::Nbf(nbf.into()), ClaimSpec::Custom("data".into(), json!(msg))];
+      // the parser also expects k further claims, all of them in the token (k around 64 and beyond: the time rules are two
+      // of k + 2 rules)
+      let k = [0usize, 1, 5, 62, 63, 64, 65, 200][(t / 2 + r) % 8];
+      let extra: Vec<ClaimSpec> = (0..k).map(|j| ClaimSpec::CustomOwned(format!("x{j}"), json!(j))).collect();
       let token = {
         let mut b = new_builder(p, Layer::Generic);
-        for s in &specs {
+        for s in specs.iter().chain(extra.iter()) {
           b.set(s).map_err(|e| format!("harness: {}", e.text))?;
+        }
+        if let Some(f) = &footer {
+          b.footer(f);
         }
         b.build(&lk).map_err(|e| format!("build-failed: {what}: {}", e.text))?
       };
       cp(2);
       let mut parser = new_parser(p, Layer::Prelude);
+      if let Some(f) = &footer {
+        parser.footer(f);
+      }
+      for s in &extra {
+        parser.check(s).map_err(|e| format!("harness: {}", e.text))?;
+      }
       match (parser.parse(&token, &lk), bad) {
         (Err(_), true) | (Ok(_), false) => Ok(vec![]),
-        (Ok(_), true) => err("time-rule-not-applied", format!("{what}: a token with exp {exp} / nbf {nbf} was accepted by PasetoParser::default()")),
+        (Ok(_), true) => err("time-rule-not-applied", format!("{what}: a token with exp {exp} / nbf {nbf} was accepted by PasetoParser::default() (which also expected {k} other claims, all present; footer {:?})", footer)),
         (Err(e), false) => err("valid-token-refused", format!("{what}: a token with exp {exp} / nbf {nbf} was refused: {}", e.text)),
       }
     }
@@ -250,26 +290,40 @@ pub fn scenario(prop: &str, t: usize, r: usize, light: bool, cp: &dyn Fn(u8)) ->
     }
     "C15" | "C16" => {
       let bad = (t + r) % 2 == 0;
+      // C16, every fourth time: the token is fine but a second validator is registered for a claim the payload does not
+      // have (the footer has a member of that name): it is handed null, which it rejects
+      let absent_case = prop == "C16" && !bad && (t + r) % 4 == 1;
       let in_token = if prop == "C15" { json!(t * 1000 + r) } else if bad { json!("reject-me") } else { json!(format!("fine-{t}-{r}")) };
       let specs = [ClaimSpec::Custom("seat".into(), in_token.clone()), ClaimSpec::Custom("data".into(), json!(msg))];
       let expected = ClaimSpec::Custom("seat".into(), if bad { json!(t * 1000 + r + 1) } else { in_token.clone() });
+      let absent = ClaimSpec::Custom("absent".into(), Value::Null);
       let token = {
         let mut b = new_builder(p, Layer::Generic);
         for s in &specs {
           b.set(s).map_err(|e| format!("harness: {}", e.text))?;
         }
+        if let Some(f) = &footer {
+          b.footer(f);
+        }
         b.build(&lk).map_err(|e| format!("build-failed: {what}: {}", e.text))?
       };
       cp(2);
       let mut parser = new_parser(p, Layer::Generic);
+      if let Some(f) = &footer {
+        parser.footer(f);
+      }
       if prop == "C15" {
         parser.check(&expected).map_err(|e| format!("harness: {}", e.text))?;
       } else {
         parser.validate(&expected, SCEN_VALIDATOR).map_err(|e| format!("harness: {}", e.text))?;
+        if absent_case {
+          parser.validate(&absent, REQUIRES_FINE).map_err(|e| format!("harness: {}", e.text))?;
+        }
       }
-      match (parser.parse(&token, &lk), bad) {
+      match (parser.parse(&token, &lk), bad || absent_case) {
         (Err(_), true) | (Ok(_), false) => Ok(vec![]),
-        (Ok(_), true) => err("mismatch-accepted", format!("{what}: token carries seat = {in_token}, the parser {} and accepted", if prop == "C15" { "expects another value" } else { "has a validator that rejects it" })),
+        (Ok(_), true) if absent_case => err("absent-claim-validated", format!("{what}: the payload has no member \"absent\" (the footer {:?} has), the validator registered for it accepts only the text \"fine\"; accepted", footer)),
+        (Ok(_), true) => err("mismatch-accepted", format!("{what}: token carries seat = {in_token} (footer {:?}), the parser {} and accepted", footer, if prop == "C15" { "expects another value" } else { "has a validator that rejects it" })),
         (Err(e), false) => err("match-refused", format!("{what}: token carries seat = {in_token}, which is what the parser expects / its validator accepts: {}", e.text)),
       }
     }
@@ -697,7 +751,20 @@ fn long_lived(prop: &str, p: Proto, n: usize) -> Result<(), String> {
   let lk = km.lib().map_err(|e| format!("harness: {}", e.text))?;
   let other_km = keys::material(p, &[22u8; 32]);
   let other = other_km.lib().map_err(|e| format!("harness: {}", e.text))?;
-  let bad = |i: usize| (i * 7 + i / 3) % 2 == 1;
+  // good and bad uses alternate at first; then come runs of 5, 17, 257 and (if n allows) 66 000 bad uses in a row, each
+  // followed by good ones: a refusal - or any number of refusals in a row - changes nothing for the token after it
+  let bad = |i: usize| match i {
+    0..=99 => i % 2 == 1,
+    100..=104 => true,
+    105 => false,
+    106..=122 => true,
+    123 => false,
+    124..=380 => true,
+    381..=399 => false,
+    _ if n >= 69_000 && i < 400 + 66_000 => true,
+    _ if n >= 69_000 => false,
+    _ => (i * 7 + i / 3) % 2 == 1,
+  };
   let what = |i: usize| format!("{} use #{} of one object", p.label(), i + 1);
   match prop {
     "C13" | "C17" => {
@@ -711,6 +778,19 @@ fn long_lived(prop: &str, p: Proto, n: usize) -> Result<(), String> {
         tokens.push(b.build(&lk).map_err(|e| format!("build-failed: {}: a builder without repeated keys: {}", what(i), e.text))?);
       }
       if prop == "C17" {
+        // one key supplied 2 .. 70 000 times to one builder: refused whatever the count
+        for reps in [2usize, 3, 255, 256, 257, 511, 512, 65_535, 65_536, 65_537].into_iter().filter(|r| *r <= n.max(600)) {
+          let rep_specs: Vec<ClaimSpec> = (0..reps).map(|j| ClaimSpec::Custom("iss-like".into(), json!(j))).collect();
+          let mut rb = new_builder(p, Layer::Prelude);
+          for s in &rep_specs {
+            let _ = rb.set(s);
+          }
+          match rb.build(&lk) {
+            Err(e) if e.class == ErrClass::Duplicate => {}
+            Err(e) => return err("duplicate-other-error", format!("{}: one key supplied {} times: {}", p.label(), reps, e.text)),
+            Ok(_) => return err("duplicate-built", format!("{}: one key supplied {} times to one builder and build returned a token", p.label(), reps)),
+          }
+        }
         let _ = b.set(&specs[2]);
         for i in 0..k {
           match b.build(&lk) {
@@ -720,6 +800,23 @@ fn long_lived(prop: &str, p: Proto, n: usize) -> Result<(), String> {
           }
         }
         return Ok(());
+      }
+      // C13: a builder that has built once is given 255 / 256 / 511 / 512 more claims and the acknowledgement, then builds:
+      // no exp, whatever the count of calls in between
+      for extra in [3usize, 255, 256, 257, 511, 512].into_iter().filter(|e| *e <= n.max(600)) {
+        let more: Vec<ClaimSpec> = (0..extra).map(|j| ClaimSpec::CustomOwned(format!("m{j}"), json!(j))).collect();
+        let mut tb = new_builder(p, Layer::Prelude);
+        let _ = tb.build(&lk).map_err(|e| format!("build-failed: {}: {}", p.label(), e.text))?;
+        for s in &more[..extra - 1] {
+          let _ = tb.set(s);
+        }
+        tb.ack_no_expiry();
+        let t = tb.build(&lk).map_err(|e| format!("build-failed: {} after {} calls: {}", p.label(), extra, e.text))?;
+        let mut gp = new_parser(p, Layer::Generic);
+        let v = gp.parse(&t, &lk).map_err(|e| format!("parse-failed: {}: {}", p.label(), e.text))?;
+        if v.get("exp").is_some() {
+          return err("exp-after-acknowledgement", format!("{}: build, {} claims and the acknowledgement ({} calls), build: the token carries exp: {v}", p.label(), extra - 1, extra));
+        }
       }
       use time::format_description::well_known::Rfc3339;
       let mut parser = new_parser(p, Layer::Generic);
@@ -737,6 +834,55 @@ fn long_lived(prop: &str, p: Proto, n: usize) -> Result<(), String> {
           Some(f) => return err("defaults-differ", format!("{}: payload {v}, the first build of the same builder gave {f}", what(i))),
         }
       }
+      Ok(())
+    }
+    "C14" if n > 400 => {
+      // one builder: two claims stay, a scratch claim under an ever new name is set and removed n times; then build
+      let keep = [ClaimSpec::Custom("first".into(), json!("kept")), ClaimSpec::Sub("subject".into())];
+      let scratch: Vec<ClaimSpec> = (0..n).map(|j| ClaimSpec::CustomOwned(format!("scratch-{j}"), json!(j))).collect();
+      let mut b = new_builder(p, Layer::Generic);
+      for s in &keep {
+        b.set(s).map_err(|e| format!("harness: {}", e.text))?;
+      }
+      for (j, s) in scratch.iter().enumerate() {
+        b.set(s).map_err(|e| format!("harness: {}", e.text))?;
+        if j + 1 < n {
+          b.remove(s.key());
+        }
+      }
+      let t = b.build(&lk).map_err(|e| format!("build-failed: {}: {}", what(n), e.text))?;
+      let mut parser = new_parser(p, Layer::Generic);
+      let v = parser.parse(&t, &lk).map_err(|e| format!("parse-failed: {}: {}", what(n), e.text))?;
+      let want = json!({"first": "kept", "sub": "subject", format!("scratch-{}", n - 1): n - 1});
+      if v != want {
+        return err("claims-differ", format!("after {n} set / remove pairs on one builder the parser returned {v}, the claims set are {want}"));
+      }
+      Ok(())
+    }
+    "C04" if n > 400 => {
+      // K stays alive; n other key objects are made (and dropped) one after the other: none of them opens K's token
+      let spec = ClaimSpec::Custom("data".into(), json!("under K"));
+      let token = {
+        let mut b = new_builder(p, Layer::Generic);
+        b.set(&spec).map_err(|e| format!("harness: {}", e.text))?;
+        b.build(&lk).map_err(|e| format!("build-failed: {}: {}", p.label(), e.text))?
+      };
+      {
+        let mut parser = new_parser(p, Layer::Generic);
+        parser.parse(&token, &lk).map_err(|e| format!("parse-failed: {}: {}", p.label(), e.text))?;
+      }
+      for i in 0..n {
+        let mut seed = [23u8; 32];
+        seed[..8].copy_from_slice(&(i as u64).to_le_bytes());
+        let km_i = keys::material(p, &seed);
+        let k_i = km_i.lib().map_err(|e| format!("harness: {}", e.text))?;
+        let accepted = if i % 2 == 0 { core_parse(&k_i, &token, None, None).is_ok() } else { new_parser(p, Layer::Generic).parse(&token, &k_i).is_ok() };
+        if accepted {
+          return err("other-key-accepted", format!("{}: the token made under K was accepted under key object #{} made after K (other bytes: {})", p.label(), i + 1, hex::encode(seed)));
+        }
+      }
+      let mut parser = new_parser(p, Layer::Generic);
+      parser.parse(&token, &lk).map_err(|e| format!("parse-failed: {}: K itself, after {} other keys: {}", p.label(), n, e.text))?;
       Ok(())
     }
     "C14" | "C15" | "C16" if n <= 400 => {
@@ -822,7 +968,7 @@ fn long_lived(prop: &str, p: Proto, n: usize) -> Result<(), String> {
           }
           let keys = if bad(i) && prop == "C04" { &other } else { &lk };
           let mut t = b.build(keys).map_err(|e| format!("build-failed: {}: {}", what(i), e.text))?;
-          if bad(i) && prop == "C03" {
+          if bad(i) && matches!(prop, "C03" | "C08") {
             let (header, body, foot) = split_token(&t).ok_or("harness: token does not split")?;
             let mut bytes = unb64(&body).ok_or("harness: payload is not base64url")?;
             let at = (i * 131) % bytes.len();
@@ -847,7 +993,7 @@ fn long_lived(prop: &str, p: Proto, n: usize) -> Result<(), String> {
       if prop == "C16" {
         parser.validate(&seat, COUNTING_VALIDATOR).map_err(|e| format!("harness: {}", e.text))?;
       }
-      let judged = matches!(prop, "C03" | "C04" | "C05" | "C06" | "C07" | "C11" | "C12" | "C15" | "C16");
+      let judged = matches!(prop, "C08" | "C03" | "C04" | "C05" | "C06" | "C07" | "C11" | "C12" | "C15" | "C16");
       for (i, t) in tokens.iter().enumerate() {
         let must_refuse = judged && bad(i) && !(prop == "C07" && q == p) && !(prop == "C06" && assertion.is_none());
         match (parser.parse(t, &lk), must_refuse) {
@@ -906,22 +1052,33 @@ pub fn run_extra(ctx: &Ctx, prop: &'static str) -> Option<String> {
   ];
   // one object, many uses: in parallel (no gates here)
   let long = LongLived { prop };
-  let long_cases: Vec<LongCase> = if matches!(prop, "C01" | "C03" | "C04" | "C05" | "C06" | "C07" | "C11" | "C12" | "C13" | "C15" | "C16" | "C17") {
+  let long_cases: Vec<LongCase> = if matches!(prop, "C01" | "C08" | "C03" | "C04" | "C05" | "C06" | "C07" | "C11" | "C12" | "C13" | "C15" | "C16" | "C17") {
     let n = ctx.n(70_000, 1_100_000) as u32;
     let mut v = vec![LongCase { proto: Proto::V4L, n }, LongCase { proto: Proto::V2L, n: 300 }, LongCase { proto: Proto::V3L, n: 300 }, LongCase { proto: Proto::V4P, n: 2_000 }];
     if matches!(prop, "C15" | "C16") {
       v.push(LongCase { proto: Proto::V4L, n: 300 });
     }
+    if prop == "C04" {
+      v = vec![LongCase { proto: Proto::V4L, n }, LongCase { proto: Proto::V3L, n: n.min(70_000) }, LongCase { proto: Proto::V2L, n: n.min(70_000) }, LongCase { proto: Proto::V1L, n: n.min(70_000) }, LongCase { proto: Proto::V4P, n: 3_000 },
+               LongCase { proto: Proto::V4L, n: 300 }, LongCase { proto: Proto::V3L, n: 300 }];
+    }
     v
   } else if prop == "C02" {
     vec![LongCase { proto: Proto::V4P, n: ctx.n(3_000, 70_000) as u32 }, LongCase { proto: Proto::V2P, n: 300 }, LongCase { proto: Proto::V3P, n: 40 }]
   } else if prop == "C14" {
-    vec![LongCase { proto: Proto::V4L, n: 300 }, LongCase { proto: Proto::V2P, n: 64 }]
+    vec![LongCase { proto: Proto::V4L, n: 300 }, LongCase { proto: Proto::V2P, n: 64 }, LongCase { proto: Proto::V4L, n: ctx.n(70_000, 1_100_000) as u32 }]
   } else {
     vec![]
   };
   let long = &long;
-  run_jobs(long_cases.into_iter().map(|c| Box::new(move || ctx.enumerate(long, std::iter::once(c), false)) as Job).collect());
+  if prop == "C04" {
+    // one after the other: while K lives, the key objects made next are all made by this loop
+    for c in long_cases {
+      ctx.enumerate(long, std::iter::once(c), false);
+    }
+  } else {
+    run_jobs(long_cases.into_iter().map(|c| Box::new(move || ctx.enumerate(long, std::iter::once(c), false)) as Job).collect());
+  }
   ctx.enumerate(&gate, gates.into_iter(), false);
   ctx.enumerate(&first, firsts.into_iter(), false);
   Some(format!(
